@@ -106,8 +106,12 @@ def doc_delta(base: dict, doc: dict) -> dict:
         key = "method" if k in ("requests", "notifications") else "name"
         old = {x[key]: x for x in base[k]}
         new = {x[key]: x for x in doc[k]}
-        out[k] = {"set": [x for x in doc[k] if old.get(x[key]) != x], "removed": [n for n in old if n not in new],
-                  "order": [x[key] for x in doc[k]] if [x[key] for x in doc[k] if x[key] in old] != [n for n in old if n in new] else None}
+        out[k] = {"set": [x for x in doc[k] if old.get(x[key]) != x], "removed": [n for n in old if n not in new], "order": None}
+    rebuilt = apply_delta(base, out)
+    for k in LISTS:
+        key = "method" if k in ("requests", "notifications") else "name"
+        if [x[key] for x in rebuilt[k]] != [x[key] for x in doc[k]]:
+            out[k]["order"] = [x[key] for x in doc[k]]   # declarations were moved, not only appended
     return out
 
 
@@ -123,6 +127,9 @@ def apply_delta(base: dict, delta: dict) -> dict:
                 items[index[x[key]]] = x
             else:
                 items.append(x)
+        if d.get("order"):
+            by = {x[key]: x for x in items}
+            items = [by[n] for n in d["order"] if n in by] + [x for x in items if x[key] not in d["order"]]
         doc[k] = items
     return doc
 
